@@ -6,6 +6,6 @@ import "github.com/crillab/gophersat/solver"
 
 const hooksOn = true
 
-func setNbMax(s *solver.Solver, n int) { s.VerifSetNbMax(n) }
-func stateOK(s *solver.Solver) string  { return s.VerifStateOK() }
+func setNbMax(s *solver.Solver, n int)  { s.VerifSetNbMax(n) }
+func stateOK(s *solver.Solver) string   { return s.VerifStateOK() }
 func learned(s *solver.Solver) []string { return s.VerifLearned() }
